@@ -90,6 +90,8 @@ def thorough_configs():
 def run(rep, repo, tier):
     for k, v in RULES.items():
         rep.rule(k, v)
+    from ..defined import check_defined
+    check_defined(rep, repo, 'C14.R1', [repo.method('Solver', '__init__'), repo.method('Solver', 'solve'), repo.method('Solver', 'get_results_short'), repo.method('Solver', 'get_results_long')], 'solver path')
     rep.assumptions += ['A3 PuLP: LpStatus strings as in pulp/constants.py; a time-limited stop with an incumbent is reported Optimal',
                         'NOT decided: wall-clock relation between a time-limited solve and total_s']
     typestate_check(rep, repo, 'C14.R1', quick_configs() + (thorough_configs() if tier == 'thorough' else []))
